@@ -74,7 +74,8 @@ def check_input(dc, st, raw, r=None):
         except Exception as e:
             silent = e
         if (u[0] == 'ok') != (silent is not None and not isinstance(silent, Exception)):
-            st.violate('silent-mismatch', 'unpack(%r) -> %s but unpack(silent=True) -> %r | %s' % (raw, u[0], silent, dc.src),
+            shown = 'None' if silent is None else ('a %s object' % type(silent).__name__ if not isinstance(silent, Exception) else repr(silent))
+            st.violate('silent-mismatch', 'unpack(%r) -> %s but unpack(silent=True) -> %s | %s' % (raw, u[0], shown, dc.src),
                        dc.case(raw=raw), dc.snippet('print(K.unpack(%r, silent=True))' % raw))
     if u[0] == 'ok':
         st.inc('accepted')
